@@ -593,23 +593,27 @@ impl C16Wire {
     }
 
     /// Send `n` refused queries from `src` to `dst` as fast as possible; number of REFUSED back.
+    /// `n` refused queries from one source *address*, spread over eight source ports (the bound
+    /// is per source, not per socket); returns the number of REFUSED responses.
     fn blast(src: IpAddr, dst: SocketAddr, n: usize, cookie: Option<Vec<u8>>) -> usize {
-        let sock = match std::net::UdpSocket::bind((src, 0)) {
-            Ok(s) => s,
-            Err(_) => return 0,
-        };
+        let socks: Vec<std::net::UdpSocket> = (0..8).filter_map(|_| std::net::UdpSocket::bind((src, 0)).ok()).collect();
+        if socks.is_empty() {
+            return 0;
+        }
         for i in 0..n {
-            let _ = sock.send_to(&refused_query(i as u16, cookie.clone()), dst);
+            let _ = socks[i % socks.len()].send_to(&refused_query(i as u16, cookie.clone()), dst);
             if i % 64 == 63 {
                 std::thread::sleep(Duration::from_millis(2));
             }
         }
-        sock.set_read_timeout(Some(Duration::from_millis(700))).unwrap();
         let mut buf = vec![0u8; 4096];
         let mut got = 0;
-        while let Ok((l, from)) = sock.recv_from(&mut buf) {
-            if is_refused(&Got { bytes: buf[..l].to_vec(), from, after: Duration::ZERO }) {
-                got += 1;
+        for (k, sock) in socks.iter().enumerate() {
+            sock.set_read_timeout(Some(Duration::from_millis(if k == 0 { 700 } else { 30 }))).unwrap();
+            while let Ok((l, from)) = sock.recv_from(&mut buf) {
+                if is_refused(&Got { bytes: buf[..l].to_vec(), from, after: Duration::ZERO }) {
+                    got += 1;
+                }
             }
         }
         got
@@ -668,6 +672,21 @@ impl WireProp for C16Wire {
                         format!("{} refused queries in one burst from {}: {} REFUSED responses came back", n, blaster, answered),
                     );
                     return out;
+                }
+                // (2b) the budget the burst used up stays used up: the same source asks again
+                // shortly afterwards (the refill rate is a few tokens per second, one REFUSED
+                // costs at least 200)
+                if n >= 200 {
+                    std::thread::sleep(Duration::from_millis(300));
+                    let again = Self::blast(blaster, dst_for(&blaster), 200, None);
+                    if again > 2 {
+                        out.fail(
+                            "C16:budget-restored-too-soon",
+                            format!("{} got {} REFUSED for a burst of {}, and 0.3 s later {} more for a burst of 200", blaster, answered, n, again),
+                        );
+                        return out;
+                    }
+                    out.class("second-burst-still-limited");
                 }
                 let small = IpAddr::V4(Ipv4Addr::new(127, 78, 0, 1 + (c.blast % 200) as u8));
                 let answered_small = Self::blast(small, dst_for(&small), 200.min(n), None);
